@@ -15,6 +15,10 @@ package verifsim
 //	dgram                                       DATAGRAM frames up to the advertised frame size
 //	idle                                        silence just below the advertised idle timeout, then one byte
 //
+// The single-stream pushers also have a "slow reader" variant (Reader == "slow"): the client application reads
+// everything and the server sends more than one window, so the client has to grant further credit; a transfer that
+// comes to a halt for good is reported with a signature of its own.
+//
 // Oracle (per the property): while the wiretap confirms that the server stayed within
 // what the client put on the wire, the client's Context() cause is never a locally
 // generated transport error nor an idle timeout earlier than advertised; on a fault-free
@@ -858,6 +862,21 @@ func runLimits(t *testing.T, ksc KScenario, res *KResult) {
 			res.Blocked = "" // C12 speaks for itself here
 		}
 	}
+	// faultFree: nothing was injected so far (also true for a scenario of the faulty class in which no fault fired):
+	// verdicts are exact
+	faultFree := func() bool {
+		w.mu.Lock()
+		defer w.mu.Unlock()
+		if len(w.Fired) > 0 {
+			return false
+		}
+		for _, f := range sc.Faults { // replay: the explicit faults whose datagram has been sent by now
+			if f.Dir >= 0 && f.Dir < 2 && f.Ord < len(w.Log[f.Dir]) {
+				return false
+			}
+		}
+		return true
+	}
 	closeBoth := func() {
 		if cconn != nil {
 			cconn.CloseWithError(0, "done")
@@ -869,7 +888,7 @@ func runLimits(t *testing.T, ksc KScenario, res *KResult) {
 	if cconn == nil || sconn == nil || cerr != nil {
 		closeBoth()
 		if !judgeClient(cerr, "handshake") {
-			if !sc.Faulty && len(sc.Faults) == 0 {
+			if faultFree() {
 				report("C02", "handshake of a spec-driven client failed on a fault-free network", "client: %v server: %v", cerr, serr)
 			} else {
 				if cconn == nil || cerr != nil {
@@ -1098,7 +1117,7 @@ func runLimits(t *testing.T, ksc KScenario, res *KResult) {
 			res.Logf("sending %d bytes on stream %d to a reading client (stream window %d, connection window %d)", writeTotal, id, adv.streamWindow(id), adv.maxData)
 			reached = waitFor(func(limSnap) bool { return clientEOF.Load() && clientRead.Load() == writeTotal })
 			what = fmt.Sprintf("stream %d: %d of %d bytes sent, %d read by the client application", id, lw.snap().ends[id], writeTotal, clientRead.Load())
-			if !reached && !capped && !sc.Faulty && len(sc.Faults) == 0 {
+			if !reached && !capped && faultFree() {
 				// no progress for a long time, or the connection idled out meanwhile
 				sig := limSigStall
 				if adv.streamWindow(id) < cfgStream || adv.maxData < cfgConn {
@@ -1387,7 +1406,7 @@ func runLimits(t *testing.T, ksc KScenario, res *KResult) {
 			res.Probe("not-applicable:" + sc.Push)
 		case capped:
 			res.Probe("slow-progress-capped:" + sc.Push + sc.Reader)
-		case !sc.Faulty && len(sc.Faults) == 0:
+		case faultFree():
 			report("C12", limSigReach+sc.Push+sc.Reader, "%s; client and server connections alive", what)
 		default:
 			res.Probe("boundary-not-reached-under-faults:" + sc.Push)
